@@ -111,6 +111,22 @@ func runCheck(prop, tier, repo, verif string, seed int, controls bool) (code int
 		Trusted: []string{"go/types, go/packages, go/ssa, callgraph/vta+cha from golang.org/x/tools v0.29.0", "the gmsa analyser itself (positive controls run on every check)", "external summaries table (math, sort, fmt, strings, math/rand, gonum mat)"},
 		Extra:   map[string]interface{}{}}
 	reg.Undec = info.Undec
+	// watchdog: the analysis is bounded everywhere it searches; should it
+	// nevertheless not finish, that is an undecided obligation (exit 1), never a hang
+	deadline := 300 * time.Second
+	if tier == "thorough" {
+		deadline = 3600 * time.Second
+	}
+	if v := os.Getenv("GMSA_DEADLINE_S"); v != "" {
+		if n, err := strconv.Atoi(v); err == nil && n > 0 {
+			deadline = time.Duration(n) * time.Second
+		}
+	}
+	wd := time.AfterFunc(deadline, func() {
+		reg.Undecided("analyser", "deadline", "", fmt.Sprintf("the analysis did not finish within %v", deadline))
+		os.Exit(reg.Finish(ri))
+	})
+	defer wd.Stop()
 	defer func() {
 		if rec := recover(); rec != nil {
 			reg.Undecided("analyser", "panic", "", fmt.Sprintf("analyser panic: %v\n%s", rec, debug.Stack()))
